@@ -10,8 +10,7 @@ when a request fails or all three time out - never a truncation computed from a 
 sent. These are the two branches the protocol model takes in its `reconcile` / `reconcileFail`
 steps (`Protocol.reconcileTruncate`, `Protocol.truncateToHW`); `model_agrees` ties the constants.
 -/
-import Liftbridge.Proofs.GoCodeBase
-import Liftbridge.Model.GoPartitionEnv
+import Liftbridge.Proofs.GoPartition
 import Liftbridge.Gen.Protocol
 
 namespace Liftbridge.Props.GoPartition
@@ -21,14 +20,6 @@ open Liftbridge.Gen.GoPartition Liftbridge.GoPartitionEnv
 /-- every construct of the translated functions is inside the subset -/
 theorem translation_complete : unsupported = [] := rfl
 
-@[simp] theorem lk_truncateToHW : evalE.lookup' "truncateToHW" prog = some fn_partition_truncateToHW := by simp [prog, gomini]
-@[simp] theorem lk_truncateUncommitted : evalE.lookup' "truncateUncommitted" prog = some fn_partition_truncateUncommitted := by simp [prog, gomini]
-@[simp] theorem lk_sendLeaderOffsetRequest : evalE.lookup' "sendLeaderOffsetRequest" prog = none := by simp [prog, gomini]
-@[simp] theorem lk_LastLeaderEpoch : evalE.lookup' "LastLeaderEpoch" prog = none := by simp [prog, gomini]
-@[simp] theorem lk_NewestOffset : evalE.lookup' "NewestOffset" prog = none := by simp [prog, gomini]
-@[simp] theorem lk_HighWatermark : evalE.lookup' "HighWatermark" prog = none := by simp [prog, gomini]
-@[simp] theorem lk_Sleep : evalE.lookup' "time.Sleep" prog = none := by simp [prog, gomini]
-@[simp] theorem lk_Truncate : evalE.lookup' "Truncate" prog = none := by simp [prog, gomini]
 
 set_option maxRecDepth 8000 in
 set_option maxHeartbeats 2000000 in
@@ -61,6 +52,57 @@ theorem go_truncateUncommitted (reply : Nat → Reply) (le newest hw : Int) :
       | timeout =>
         by_cases hh : newest = hw <;>
         simp [runG, fn_partition_truncateUncommitted, fn_partition_truncateToHW, gomini, encP, globals, reqExt, h0, h1, h2, encReply, binInt, builtin, errTimeout, decision, truncationsOf, truncations, convert, hh]
+
+/-! ### the in-sync set and its persisted form
+
+`RemoveFromISR` / `AddToISR` keep two representations of the in-sync set: the map `p.isr` the leader
+commits by, and the protobuf list `p.Isr`, which is what a partition rebuilt from the protobuf (pause /
+resume, snapshot restore) - and therefore a later election - sees. For every partition state: after
+the call the persisted list is EXACTLY the key set of the map after the change. -/
+
+set_option maxRecDepth 8000 in
+set_option maxHeartbeats 2000000 in
+theorem go_RemoveFromISR (rs m : List (String × Val)) (persisted : List Val) (below : Bool) (minISR : Int) (leading : Bool)
+    (r : String) (v0 : Val) (hr : lookup r rs = some v0) :
+    isrView (run prog noExt 30 "RemoveFromISR" (some (encPart rs m persisted below minISR leading)) [.str r]) =
+      some (some (.struct (eraseKey r m)), some (.list ((eraseKey r m).map fun e => .str e.1)), [.nil]) := by
+  have hl := isr_loop 23 "replica·1" (by decide)
+    [("replicas", .struct rs), ("isr", .struct (eraseKey r m)), ("Isr", .list persisted), ("belowMinISR", .bool below),
+     ("minISR", .int minISR), ("isLeading", .bool leading)] (eraseKey r m) []
+  simp [run, runG, fn_partition_RemoveFromISR, fn_partition_inReplicas, gomini, encPart, builtin, hr]
+  rw [hl _ (by simp [gomini])]
+  have hp := isrSt_p "replica·1"
+    [("replicas", .struct rs), ("isr", .struct (eraseKey r m)), ("Isr", .list persisted), ("belowMinISR", .bool below),
+     ("minISR", .int minISR), ("isLeading", .bool leading)] (eraseKey r m) []
+  simp [gomini] at hp
+  cases below <;> cases leading <;> by_cases h : ((eraseKey r m).length : Int) < minISR <;>
+    simp [gomini, hp, isrSt_frame, isrSt_eff, binInt, h, isrView, fieldOf]
+
+set_option maxRecDepth 8000 in
+set_option maxHeartbeats 2000000 in
+theorem go_AddToISR (rs m : List (String × Val)) (persisted : List Val) (below : Bool) (minISR : Int) (leading : Bool)
+    (r : String) (v0 : Val) (hr : lookup r rs = some v0) :
+    isrView (run prog noExt 30 "AddToISR" (some (encPart rs m persisted below minISR leading)) [.str r]) =
+      some (some (.struct (update r (.struct [("offset", .int (-1))]) m)),
+            some (.list ((update r (.struct [("offset", .int (-1))]) m).map fun e => .str e.1)), [.nil]) := by
+  have hl := isr_loop 23 "replica" (by decide)
+    [("replicas", .struct rs), ("isr", .struct (update r (.struct [("offset", .int (-1))]) m)), ("Isr", .list persisted), ("belowMinISR", .bool below),
+     ("minISR", .int minISR), ("isLeading", .bool leading)] (update r (.struct [("offset", .int (-1))]) m) []
+  simp [run, runG, fn_partition_AddToISR, fn_partition_inReplicas, gomini, encPart, builtin, hr, assignTo]
+  rw [hl _ (by simp [gomini])]
+  have hp := isrSt_p "replica"
+    [("replicas", .struct rs), ("isr", .struct (update r (.struct [("offset", .int (-1))]) m)), ("Isr", .list persisted), ("belowMinISR", .bool below),
+     ("minISR", .int minISR), ("isLeading", .bool leading)] (update r (.struct [("offset", .int (-1))]) m) []
+  simp [gomini] at hp
+  cases below <;> by_cases h : ((update r (.struct [("offset", .int (-1))]) m).length : Int) ≥ minISR <;>
+    simp [gomini, hp, isrSt_frame, isrSt_eff, binInt, h, isrView, fieldOf]
+
+/-- a replica the partition does not have is refused and nothing changes -/
+theorem go_RemoveFromISR_not_replica (rs m : List (String × Val)) (persisted : List Val) (below : Bool) (minISR : Int) (leading : Bool)
+    (r : String) (hr : lookup r rs = none) :
+    isrView (run prog noExt 30 "RemoveFromISR" (some (encPart rs m persisted below minISR leading)) [.str r]) =
+      some (some (.struct m), some (.list persisted), [.str "error: %s not a replica"]) := by
+  simp [run, runG, fn_partition_RemoveFromISR, fn_partition_inReplicas, gomini, encPart, builtin, hr, isrView, fieldOf]
 
 /-- the constants of the protocol model's two reconciliation branches are the ones of the code:
 `Truncate(lastOffset + 1)`, `newestOffset == hw ⇒ nothing`, `Truncate(hw + 1)`, and the fallback exists -/
